@@ -162,7 +162,7 @@ META["C11"] = {
     "parts": 3,
     "tiers": {
         "quick": {"shards": 3, "deadline_s": 300,
-                  "bounds": "bins_x in {1,2,3,5} x bins_y in {1,2,3} x 7 ranges ([0,1],[-1,1],[-3,-1],[2,5],[0,1e-6],[-1e6,1e6],[0.1,0.7]); every (x,y) pair from: every edge and its two neighbours, every mid point, below/above by one span, far outside (1e10 spans, +-1e19, 1e30, +-max), quotient just above 2^64, +-inf, NaN; one 1-d and one 2-d distribution filled in the same call; PLAIN, VEGAS (grid [0,1/8,1/4,1]) and MULTI-CHANNEL (weights 1/2,1/8,3/8, jacobian 1+y); 9-call differential runs per bin; 3 types"},
+                  "bounds": "bins_x in {1,2,3,5} x bins_y in {1,2,3} x 7 ranges ([0,1],[-1,1],[-3,-1],[2,5],[0,1e-6],[-1e6,1e6],[0.1,0.7]); every (x,y) pair from: every edge and its two neighbours, every mid point, below/above by one span, far outside (1e10 spans, +-1e19, 1e30, +-max), quotient just above 2^64, +-inf, NaN; three distributions filled in the same call (1-d in x, 2-d in (x,y), 1-d in y); PLAIN, VEGAS (grid [0,1/8,1/4,1]) and MULTI-CHANNEL (weights 1/2,1/8,3/8, jacobian 1+y); 9-call differential runs per bin; 3 types"},
         "thorough": {"shards": 3, "deadline_s": 900, "bounds": "same as quick (the enumeration is complete at this bound)"},
     },
     "rule": "nested enumeration of binnings x coordinate pairs, one scripted projection per single-call iteration; reference bin = floor((x-min)/size) in __float128 on the stored parameters; non-trivial = every case; distinct = distinct (configuration, x, y)",
@@ -269,7 +269,7 @@ META["C20"] = {
     "parts": 3,
     "tiers": {
         "quick": {"shards": 3, "deadline_s": 400,
-                  "bounds": "4 callback modes x {PLAIN, VEGAS, MULTI-CHANNEL with 1,2,3,7,12,13,14,30 channels x 4 weight patterns (equal, all but one at the floor, alternating disabled, increasing)} x integrands {0, 1, NaN sometimes, linear} x targets {0, 0.12} x 3 iterations; MPI shim with 3 ranks x 4 modes x targets {0, 0.12}; multi_channel_summary directly for 1..14 and 30 channels x weight patterns (equal, one dominant, k disabled, increasing/decreasing, two groups, one huge) x calls {0,1,1000,10^6}; 3 types; ASan+UBSan+_GLIBCXX_ASSERTIONS, 60 s limit per case"},
+                  "bounds": "4 callback modes x {PLAIN, VEGAS, MULTI-CHANNEL with 1,2,3,7,12,13,14,30 channels x 4 weight patterns (equal, all but one at the floor, alternating disabled, increasing)} x integrands {0, 1, NaN sometimes, linear} x targets {0, 0.12} x 3 iterations; MPI shim with 3 ranks x 4 modes x targets {0, 0.12}; multi_channel_summary directly for 1..48 channels x weight patterns (equal, one dominant, k disabled, increasing/decreasing, two groups, one huge) x calls {0,1,1000,10^6}; 3 types; ASan+UBSan+_GLIBCXX_ASSERTIONS, 60 s limit per case"},
         "thorough": {"shards": 3, "deadline_s": 900, "bounds": "same as quick (the enumeration is complete at this bound)"},
     },
     "rule": "full product of configurations; each configuration is run once per mode and the modes are compared with the silent run (final text and the text handed to every callback invocation); distinct = distinct configurations; non-trivial = every configuration",
